@@ -274,7 +274,7 @@ func main() {
 		} else if rf.Cp != nil {
 			d := runCancelProc(*rf.Cp)
 			fmt.Printf("cancel-proc case %+v: %s\n", *rf.Cp, d)
-			bad = d != ""
+			bad = d != "" && !strings.HasPrefix(d, "NOTJUDGED:")
 		} else if rf.To != nil {
 			d := runTimeout(*rf.To)
 			fmt.Printf("timeout case %+v: %s\n", *rf.To, d)
